@@ -392,6 +392,10 @@ def work(task):
             ('full-list-plus', 'big + t(0)', [P(0)]), ('full-list-plus-list', 'big + [t(0)]', [P(0)]), ('full-list-compound', 'x = [1]; x += [t(0), t(1)]', [P(0), P(1)]),
             ('full-list-push', 'push(big, t(0))', [P(0)]), ('full-list-index', 'big[t(0)] = t(1)', [P(0), P(1)]), ('full-dict-index', 'bigd[t(0)] = t(1)', [P(0), P(1)]),
             ('long-args', 'f(' + ', '.join(f't({i})' for i in range(6)) + ', ' + ', '.join(str(i) for i in range(40)) + ')', [P(i) for i in range(6)]),
+            # a callee that does not resolve / is not callable: its arguments are still evaluated, once, left to right, before the call fails
+            ('undefined-fn', 'nosuch(t(0), t(1))', [P(0), P(1)]), ('undefined-method', 't(0).nosuch(t(1))', [P(0), P(1)]),
+            ('undefined-pipe', 't(0) | nosuch(t(1), t(2))', [P(0), P(1), P(2)]), ('non-callable', 'x(t(0), t(1))', [P(0), P(1)]),
+            ('undefined-in-arg', 'f(t(0), nosuch(t(1)), t(2))', [P(0), P(1)]), ('callee-bound-by-arg', 'hd2(t(0))', [P(0)]),
             ('long-list', '[' + ', '.join(str(i) for i in range(40)) + ', t(0), t(1)]', [P(0), P(1)]),
         ]
         for label, text, seq in real_calls:
